@@ -29,6 +29,7 @@ func main() {
 		os.Exit(1)
 	}
 	col := ev.NewCollector("C16", *tier, "model_checking")
+	codecmc.Thorough = *tier == "thorough"
 	t0 := time.Now()
 	v2 := codecmc.RunV2(col)
 	fmt.Printf("[C16] msgappv2: context states=%d transitions=%d (compact form %d) truncations=%d %.1fs\n", v2.States, v2.Transitions, v2.Compact, v2.Truncations, time.Since(t0).Seconds())
@@ -95,7 +96,7 @@ func main() {
 	col.Set("bit_flips", flips)
 	col.Set("bit_flip_outcomes", outcomes)
 	col.Set("exhaustive", true)
-	col.Set("rule", "msgappv2: BFS to a fixpoint over the context state (term, index, from group, to group) shared by encoder and decoder; alphabet = raft-producible MsgApp over 3 raft groups sharing the stream x term/logterm {1,2} x index 0..3 x 0-2 entries x commit {0,2} + link heartbeat; each transition encoded and decoded by the real codec in that context, compared by re-marshalled bytes, contexts compared, and every proper prefix of the frame fed to a decoder (must fail). general codec: every message type with small field domains, all ordered pairs on one stream, every truncation. sizes: entry payloads around the 1 MiB buffer. corruption: every single-bit flip of a 3-message stream per codec in worker subprocesses with an address-space limit")
+	col.Set("rule", "msgappv2: BFS to a fixpoint over the context state (term, index, from group, to group) shared by encoder and decoder; alphabet = raft-producible MsgApp over 3 raft groups sharing the stream x term/logterm {1,2} x index 0..3 x 0-2 entries x commit {0,2} (thorough: terms 1..3, index 0..5, 0-3 entries, commit {0,2,5}) + link heartbeat; each transition encoded and decoded by the real codec in that context, compared by re-marshalled bytes, contexts compared, and every proper prefix of the frame fed to a decoder (must fail). general codec: every message type with small field domains, all ordered pairs on one stream, every truncation. sizes: entry payloads around the 1 MiB buffer. corruption: every single-bit flip of a 3-message stream per codec in worker subprocesses with an address-space limit")
 	col.Sample(map[string]interface{}{"v2_alphabet_size": len(codecmc.AppAlphabet()), "general_alphabet_size": len(codecmc.GeneralAlphabet())})
 	col.Sample(map[string]interface{}{"example": "context {term 2 index 3 g1} + MsgApp g1 term=2 logterm=2 index=3 1 entry -> compact AppEntries frame; same message for g3 (same replica ids) -> full MsgApp frame"})
 	if v2.Compact == 0 && col.NumViolationSigs() == 0 {
